@@ -1,11 +1,35 @@
 import Enc.Model.Json.DecScalar
 import Enc.Spec.Json.StdDec
+import Enc.Lemmas.JsonDecInt
+import Enc.Lemmas.JsonDecString
 /-!
 # C02 — json.Unmarshal stores what encoding/json.Unmarshal stores
 Property theorems only (scalar layer; the type-shape layer is decided by the type-directed differential, see DESIGN.md).
+Proofs in Enc/Lemmas/JsonDecInt.lean and Enc/Lemmas/JsonDecString.lean.
 -/
 namespace Enc.Props.C02
 open Enc Enc.Model.Json
+
+/-- range of an integer target type -/
+abbrev lo := Lemmas.JsonDecInt.lo
+abbrev hi := Lemmas.JsonDecInt.hi
+
+/-- **MAIN (integers).** For every byte string and each of the ten integer target types, the model of
+`Unmarshal(doc, &x)` — skipSpaces, parseInt / parseUint with their machine-integer overflow tests exactly as coded, the
+width check of decodeInt8…decodeUint64, trailing white space — stores the value, or returns an error, exactly as the
+transcription of encoding/json's literalStore says: the document is `ws number ws` of RFC 8259 without fraction or
+exponent (and without a sign for unsigned targets) whose mathematical value lies in the range of the type; `null`
+leaves the variable alone. No bound on the number of digits. -/
+theorem unmarshalInt_eq (t : ITy) (doc : Bytes) :
+    unmarshalInt t doc = Spec.Json.unmarshalInt t.signed (lo t) (hi t) doc :=
+  Lemmas.JsonDecInt.unmarshalInt_eq t doc
+
+/-- **MAIN (strings).** For every byte string, `Unmarshal(doc, &s)` as coded — parseString with its word-at-a-time
+quote search and the flag-guarded fast path, then the chunk-wise unescaping loop with `\u` escapes, UTF-16 surrogate
+pairs and UTF-8 coercion — stores exactly what encoding/json's rune-by-rune `unquoteBytes` stores, and fails on exactly
+the same documents. -/
+theorem unmarshalString_eq (doc : Bytes) : unmarshalString doc = Spec.Json.unmarshalString doc :=
+  Lemmas.JsonDecString.unmarshalString_eq doc
 
 /-- the former overflow test `next := value*10 + x; next < value` missed these wrap-arounds (fixed in /repo):
 the literal 25000000000000000000 is rejected for int64 and 30000000000000000000 for uint64 -/
@@ -13,5 +37,11 @@ theorem wrap_witness_int : parseInt [0x32,0x35,0x30,0x30,0x30,0x30,0x30,0x30,0x3
   decide +kernel
 theorem wrap_witness_uint : parseUint [0x33,0x30,0x30,0x30,0x30,0x30,0x30,0x30,0x30,0x30,0x30,0x30,0x30,0x30,0x30,0x30,0x30,0x30,0x30,0x30] = .err := by
   decide +kernel
+
+/-- non-vacuity: -128 fits int8, 128 does not; a surrogate pair becomes one 4-byte rune -/
+example : unmarshalInt .i8 [0x20, 0x2d, 0x31, 0x32, 0x38, 0x0a] = some (-128) := by decide +kernel
+example : unmarshalInt .i8 [0x31, 0x32, 0x38] = none := by decide +kernel
+example : unmarshalString [0x22, 0x5c, 0x75, 0x64, 0x38, 0x33, 0x64, 0x5c, 0x75, 0x64, 0x65, 0x30, 0x30, 0x22]
+    = some [0xf0, 0x9f, 0x98, 0x80] := by decide +kernel
 
 end Enc.Props.C02
